@@ -26,6 +26,7 @@ import (
 	"github.com/buildbarn/bb-storage/pkg/blobstore/completenesschecking"
 	"google.golang.org/grpc/codes"
 	"google.golang.org/grpc/status"
+	"google.golang.org/protobuf/proto"
 
 	"verif/lib/gen"
 	"verif/lib/run"
@@ -37,49 +38,55 @@ func main() {
 		Property: "C13",
 		Level:    "exploration",
 		Rule: "case = generated ActionResult (0-40 output files, 0-6 output directories with/without root digest, nested/empty/shared/hostile Trees, inlined contents, unset and malformed digests, 8 digest functions, 4 instance names) x CAS state and behaviour x decorator configuration (batch size, message size limit, tree size budget) x access path; " +
-			"groups: random (random missing subsets, served corruption, stream errors, call faults, CAS changing during the call, AC faults), each-missing (every referenced object removed in turn), each-fault (every CAS call failed in turn, every Tree stream failed at every offset), tree-bytes (every byte of a Tree truncated/flipped, served under the old digest and stored under a recomputed one), budget (limits around the Tree size totals), each-malformed (every digest slot malformed in turn), changing-cas (a referenced object removed from / inserted into the CAS at every call index of the Get); " +
+			"groups: random (random missing subsets, served corruption, stream errors, call faults, CAS changing during the call, AC faults), each-missing (every referenced object removed in turn), each-fault (every CAS call failed in turn, every Tree stream failed at every offset), tree-bytes (every byte of a Tree truncated/flipped, served under the old digest and stored under a recomputed one), budget (limits around the Tree size totals), msg-limit (message size limit at and around the encoded size of the ActionResult and of every Directory message of every Tree, and at every top-level field boundary inside them, with everything present and with one object listed behind the limit absent), each-malformed (every digest slot malformed in turn), changing-cas (a referenced object removed from / inserted into the CAS at every call index of the Get); " +
 			"distinct = hash of (ActionResult shape and bytes, variation label); all variations other than the fault-free baseline are non-trivial",
 		Workers:     8,
 		CaseTimeout: 120 * time.Second,
 		Floors: map[string]int64{
-			"gets_total":                              33000,
-			"results_returned":                        2200,
-			"returned_with_references":                2100,
-			"references_verified_present":             29000,
-			"refused_missing":                         3400,
-			"refused_single_missing_output-file":      520,
-			"refused_single_missing_stdout":           90,
-			"refused_single_missing_stderr":           90,
-			"refused_single_missing_tree":             180,
-			"refused_single_missing_root-directory":   97,
-			"refused_single_missing_tree-file":        2000,
-			"refused_single_missing_tree-directory":   140,
-			"refused_malformed":                       3200,
-			"refused_single_malformed_output-file":    310,
-			"refused_single_malformed_stdout":         51,
-			"refused_single_malformed_stderr":         51,
-			"refused_single_malformed_tree":           130,
-			"refused_single_malformed_root-directory": 61,
-			"refused_single_malformed_tree-file":      2200,
-			"refused_single_malformed_tree-directory": 190,
-			"refused_oversized":                       240,
-			"refused_cas_fault":                       440,
-			"refused_tree_corrupt-served":             10000,
-			"refused_tree_stream-error":               6700,
-			"refused_tree_unparseable":                6100,
-			"returned_unrequired_directory_absent":    660,
-			"returned_after_tree_mutation":            710,
-			"budget_at_limit_returned":                84,
-			"multi_batch_gets":                        9800,
-			"flaky_runs":                              920,
-			"flaky_returned":                          430,
-			"gets_on_reused_decorator":                1000,
+			"gets_total":                                       33000,
+			"results_returned":                                 2200,
+			"returned_with_references":                         2100,
+			"references_verified_present":                      29000,
+			"refused_missing":                                  3400,
+			"refused_single_missing_output-file":               520,
+			"refused_single_missing_stdout":                    90,
+			"refused_single_missing_stderr":                    90,
+			"refused_single_missing_tree":                      180,
+			"refused_single_missing_root-directory":            97,
+			"refused_single_missing_tree-file":                 2000,
+			"refused_single_missing_tree-directory":            140,
+			"refused_malformed":                                3200,
+			"refused_single_malformed_output-file":             310,
+			"refused_single_malformed_stdout":                  51,
+			"refused_single_malformed_stderr":                  51,
+			"refused_single_malformed_tree":                    130,
+			"refused_single_malformed_root-directory":          61,
+			"refused_single_malformed_tree-file":               2200,
+			"refused_single_malformed_tree-directory":          190,
+			"refused_oversized":                                240,
+			"refused_cas_fault":                                440,
+			"refused_tree_corrupt-served":                      10000,
+			"refused_tree_stream-error":                        6700,
+			"refused_tree_unparseable":                         6100,
+			"returned_unrequired_directory_absent":             660,
+			"returned_after_tree_mutation":                     710,
+			"budget_at_limit_returned":                         84,
+			"multi_batch_gets":                                 9800,
+			"flaky_runs":                                       920,
+			"flaky_returned":                                   430,
+			"gets_on_reused_decorator":                         1000,
+			"msglimit_probes":                                  1900,
+			"msglimit_oversized_directories_cut_between_nodes": 300,
+			"msglimit_cut_between_nodes_absent_behind":         290,
+			"refused_directory_over_message_limit":             1200,
+			"returned_directory_at_message_limit":              25,
 		},
 		Assumptions: []string{
 			"'reported present during that call' is decided from the model CAS's per-call log of FindMissing requests and replies",
 			"an unset digest field references nothing; an output directory without tree_digest is left undecided (the code refuses it)",
 			"a Tree is 'unreadable or corrupted' if the bytes served differ from the bytes matching its digest, the stream fails, or proto.Unmarshal rejects it; Trees that proto.Unmarshal accepts but that carry non length-delimited unknown top-level fields are left undecided",
 			"'exceeding the configured total size' is required for the sum over distinct Trees; the code also counts a Tree referenced twice twice (left undecided)",
+			"a message (ActionResult, Directory inside a Tree) larger than the configured maximum message size is not mentioned by the statement: refusing it is accepted and counted, returning the result is held to the stated clause (everything listed was reported present during the call)",
 			"NOT_FOUND is demanded for missing objects (stated), and also for malformed digests and oversized Trees ('likewise'); any error is accepted for corrupted Trees and CAS failures",
 		},
 		Body: body,
@@ -529,6 +536,221 @@ func body(w *run.Worker) {
 				w.Count("budget_at_limit_returned", 1)
 			}
 			w.Count("budget_probes", 1)
+		}
+	})
+
+	// --------------------------------------------------------------- msg-limit
+	// The message size limit placed at and around the encoded size of every
+	// message the decorator has to unmarshal (the ActionResult, every Directory
+	// of every Tree) and at every top-level field boundary inside them: a limit
+	// that falls exactly between two nodes of a message larger than the limit.
+	// Each limit is run with everything present and with one object listed
+	// behind the limit absent. Nothing new is asserted: "returned only if every
+	// CAS object it references - ... and every file (and, when a root
+	// directory digest is given, every directory) listed inside those Trees -
+	// was reported present by the CAS during that call" is what execute()
+	// checks for every returned result; the statement does not say that an
+	// over-limit message must be refused, so refusals are only counted.
+	w.Cases("msg-limit", w.N(320, 6000), func(c *run.Case) {
+		r := c.Rng
+		h := harness{c, w}
+		o := cleanOpts(r)
+		o.maxFiles = r.Pick(0, 1, 3)
+		o.maxDirs = r.Pick(1, 2, 3)
+		o.treeDepth = r.Intn(3)
+		o.maxTreeFile = r.Pick(2, 5, 9, 14)
+		o.bigTree = r.Chance(1, 8)
+		o.nilPerMille = r.Pick(0, 0, 100)
+		var wd *world
+		for try := 0; ; try++ {
+			wd = buildWorld(*r.Fork(), o, -1, 0)
+			if len(wd.ar.OutputDirectories) > 0 || try > 20 {
+				break
+			}
+		}
+		cfg := baseCfg(r, 1)
+		exp := evaluate(wd, cfg)
+		prune(r, wd, exp)
+		cfg.batch = batchFor(r, len(exp.order))
+		wd.cas.chunk = r.Pick(0, 0, 1, 7, 64, 4096)
+		wd.cas.eofData = r.Bool()
+
+		keysOf := func(ds ...*remoteexecution.Digest) []string {
+			var out []string
+			for _, d := range ds {
+				if d != nil {
+					out = append(out, objKey(d.Hash, d.SizeBytes))
+				}
+			}
+			return out
+		}
+		type msgLimit struct {
+			kind   string
+			behind []string // objects referenced by the part of the message behind the limit
+		}
+		limits := map[int]*msgLimit{}
+		add := func(l int, kind string, behind []string) {
+			if _, dup := limits[l]; l >= 0 && !dup {
+				limits[l] = &msgLimit{kind, behind}
+			}
+		}
+		// Every Directory message of every Tree, once per output directory.
+		type dirMsg struct {
+			data []byte
+			ends map[int]bool
+		}
+		var dirMsgs []dirMsg
+		seen := map[string]bool{}
+		var sizes [][2]int // message size, 0 = ActionResult / 1 = Directory
+		arEnds := fieldBoundaries(wd.arBytes)
+		for _, b := range arEnds {
+			if b < len(wd.arBytes) {
+				rest := &remoteexecution.ActionResult{}
+				var ks []string
+				if proto.Unmarshal(wd.arBytes[b:], rest) == nil {
+					for _, f := range rest.OutputFiles {
+						ks = append(ks, keysOf(f.Digest)...)
+					}
+					for _, od := range rest.OutputDirectories {
+						ks = append(ks, keysOf(od.RootDirectoryDigest)...)
+					}
+					ks = append(ks, keysOf(rest.StdoutDigest, rest.StderrDigest)...)
+				}
+				add(b, "action-result-boundary", ks)
+			}
+		}
+		sizes = append(sizes, [2]int{len(wd.arBytes), 0})
+		for _, k := range exp.treeKeys {
+			data, ok := wd.cas.objects[k]
+			if !ok {
+				continue
+			}
+			for _, d := range treeDirectories(data) {
+				dm := dirMsg{data: d, ends: map[int]bool{}}
+				ends := fieldBoundaries(d)
+				for _, b := range ends {
+					dm.ends[b] = true
+				}
+				dirMsgs = append(dirMsgs, dm)
+				if seen[k] {
+					continue
+				}
+				sizes = append(sizes, [2]int{len(d), 1})
+				for _, b := range ends {
+					if b == len(d) {
+						continue
+					}
+					rest := &remoteexecution.Directory{}
+					var ks []string
+					if proto.Unmarshal(d[b:], rest) == nil {
+						for _, f := range rest.Files {
+							ks = append(ks, keysOf(f.Digest)...)
+						}
+						for _, s := range rest.Directories {
+							ks = append(ks, keysOf(s.Digest)...)
+						}
+					}
+					add(b, "directory-boundary", ks)
+				}
+			}
+			seen[k] = true
+		}
+		nExact := len(limits)
+		for _, s := range sizes {
+			kind := []string{"action-result-size", "directory-size"}[s[1]]
+			add(s[0], kind, nil)
+			add(s[0]-1, kind+"-1", nil)
+			add(s[0]+1, kind+"+1", nil)
+		}
+		var ls []int
+		for l := range limits {
+			ls = append(ls, l)
+		}
+		sort.Ints(ls)
+		for _, l := range ls {
+			if k := limits[l].kind; (k == "directory-boundary" || k == "action-result-boundary") && r.Chance(1, 3) {
+				add(l-1, k+"-1", limits[l].behind)
+				add(l+1, k+"+1", limits[l].behind)
+			}
+		}
+		ls = ls[:0]
+		for l := range limits {
+			ls = append(ls, l)
+		}
+		sort.Ints(ls)
+		const maxLimits = 90
+		if len(ls) > maxLimits {
+			p := r.Perm(len(ls))[:maxLimits]
+			sort.Ints(p)
+			sel := make([]int, 0, maxLimits)
+			for _, i := range p {
+				sel = append(sel, ls[i])
+			}
+			ls = sel
+		}
+		c.Desc("%s | message size limit at %d node boundaries and around %d message sizes (%d limits run); ActionResult %d bytes, %d Directory messages",
+			wd.shape, nExact, len(sizes), len(ls), len(wd.arBytes), len(dirMsgs))
+		if c.Index == 0 {
+			w.Sample(map[string]any{"group": "msg-limit", "world": wd.shape, "limits": len(ls), "action_result_bytes": len(wd.arBytes), "directory_messages": len(dirMsgs)})
+		}
+		cfg.label = "msg-limit base"
+		h.execute(wd, cfg)
+		isTree := map[string]bool{}
+		for _, k := range exp.treeKeys {
+			isTree[k] = true
+		}
+		leaves := exp.leaves()
+		for i, l := range ls {
+			lim := limits[l]
+			// Coverage: the ActionResult fits and every Directory larger than the
+			// limit is cut by it exactly between two of its nodes.
+			nOver, between := 0, true
+			for _, dm := range dirMsgs {
+				if len(dm.data) > l {
+					nOver++
+					between = between && dm.ends[l]
+				}
+			}
+			cut := len(wd.arBytes) <= l && nOver > 0 && between
+			cfg.maxMsg = l
+			cfg.path = (i + int(c.Index)) % 3
+			cfg.label = fmt.Sprintf("msg-limit %s limit=%d", lim.kind, l)
+			h.execute(wd, cfg)
+			w.Count("msglimit_probes", 1)
+			if cut {
+				w.Count("msglimit_oversized_directories_cut_between_nodes", 1)
+			}
+			if !cut && !r.Bool() {
+				continue
+			}
+			// One object listed behind the limit (any leaf when there is none) absent.
+			var cands []string
+			for _, k := range lim.behind {
+				if _, present := wd.cas.objects[k]; present && !isTree[k] && exp.required[k] != "" {
+					cands = append(cands, k)
+				}
+			}
+			behind := len(cands) > 0
+			if !behind {
+				for _, k := range leaves {
+					if _, present := wd.cas.objects[k]; present {
+						cands = append(cands, k)
+					}
+				}
+			}
+			if len(cands) == 0 {
+				continue
+			}
+			k := cands[r.Intn(len(cands))]
+			data := wd.cas.objects[k]
+			delete(wd.cas.objects, k)
+			cfg.label += fmt.Sprintf(" absent:%s(behind=%v)", exp.required[k], behind)
+			h.execute(wd, cfg)
+			wd.cas.objects[k] = data
+			w.Count("msglimit_absent_probes", 1)
+			if cut && behind {
+				w.Count("msglimit_cut_between_nodes_absent_behind", 1)
+			}
 		}
 	})
 
